@@ -46,6 +46,9 @@ type c17Reject struct {
 type c17Case struct {
 	Opts    vOpts       `json:"opts"`
 	Join    bool        `json:"join"`
+	// Overwrite: the items supersede earlier values that sit in older storage tables, and the stores are compacted
+	// before the copies are compared
+	Overwrite bool      `json:"overwrite,omitempty"`
 	Items   []c17Item   `json:"items"`
 	Rejects []c17Reject `json:"rejects"`
 }
@@ -137,6 +140,7 @@ func genC17(t *rapid.T) *c17Case {
 	c.Opts.Partitions = rapid.SampledFrom([]int{7, 13}).Draw(t, "partitions")
 	c.Opts.TableSize = rapid.SampledFrom([]int{1024, 4096, 0}).Draw(t, "tableSize")
 	c.Join = rapid.IntRange(0, 5).Draw(t, "join") == 0
+	c.Overwrite = rapid.IntRange(0, 2).Draw(t, "overwrite") == 0
 	maxBytes := 200
 	if c.Opts.TableSize == 0 {
 		maxBytes = 200000
@@ -426,6 +430,36 @@ func runC17(c *c17Case) (v *vcommon.Violation, nontrivial, inconclusive bool) {
 		}
 		return nil
 	}
+	if c.Overwrite {
+		// every key first holds something else, and enough is written behind it to roll the storage tables over:
+		// the values written below supersede versions that sit in older tables, on the primary and on the backup
+		for i, it := range c.Items {
+			dm, _, err := handle(pOwnerEmb, string(it.Key))
+			if err != nil {
+				return nil, nontrivial, true
+			}
+			if err := dm.Put(ctx, string(it.Key), []byte(fmt.Sprintf("an-earlier-value-%d", i))); err != nil {
+				return nil, nontrivial, true
+			}
+		}
+		if ts := c.Opts.TableSize; ts > 0 {
+			dm, _, err := handle(pOwnerEmb, "filler")
+			if err != nil {
+				return nil, nontrivial, true
+			}
+			for i := 0; i < c.Opts.Partitions*4; i++ {
+				if err := dm.Put(ctx, fmt.Sprintf("filler-%d", i), bytes.Repeat([]byte{'f'}, ts/3)); err != nil {
+					return nil, nontrivial, true
+				}
+			}
+			// the tables have rolled over; the fillers themselves go again (scans below compare key sets)
+			for i := 0; i < c.Opts.Partitions*4; i++ {
+				if _, err := dm.Delete(ctx, fmt.Sprintf("filler-%d", i)); err != nil {
+					return nil, nontrivial, true
+				}
+			}
+		}
+	}
 	for _, it := range c.Items {
 		key := string(it.Key)
 		dm, pl, err := handle(it.Path, key)
@@ -463,6 +497,18 @@ func runC17(c *c17Case) (v *vcommon.Violation, nontrivial, inconclusive bool) {
 		sort.Strings(want)
 		if strings.Join(got, "\x01") != strings.Join(want, "\x01") {
 			return bad("scan-keys", "a scan yields keys %q, written %q", got, want), nontrivial, false
+		}
+	}
+	if c.Overwrite {
+		// compaction moves live entries between tables; afterwards every copy still holds what was written last
+		for _, m := range cl.live() {
+			for p := uint64(0); p < uint64(c.Opts.Partitions); p++ {
+				m.db.dmap.VerifCompact(name, p, partitions.PRIMARY, 500)
+				m.db.dmap.VerifCompact(name, p, partitions.BACKUP, 500)
+			}
+		}
+		if v := readAll("compacted"); v != nil {
+			return v, nontrivial, false
 		}
 	}
 	// replication: the backup copy holds the same bytes as the primary copy
